@@ -91,8 +91,8 @@ theorem read_block (x : Src) (xs : List Src) (hok : okL (x :: xs) = true) (items
   -- lazy = eager
   have hrunes : cs.flatten ++ eofPiece = Spacing.renderItems items ++ ['\n'] := by rw [hcs]; rfl
   rw [hrunes] at hst hex
-  have hahead := runA_ahead (topLoop (fuelFor cs)) ⟨LexCore.init, Spacing.renderItems items ++ ['\n'], []⟩ ⟨cf, [], []⟩
-    ⟨hfeed, rfl, rfl⟩
+  have hahead := runA_ahead (topLoop (fuelFor cs)) ⟨LexCore.init, Spacing.renderItems items ++ ['\n'], [], true⟩ ⟨cf, [], [], true⟩
+    ⟨hfeed, rfl, rfl, rfl⟩
   -- the fuel
   have hwf := legal_wf '\x00' items hlegal
   have hlen := renderItems_length items (fun it hit => tok_text_ne_nil it.2 (hwf it hit))
